@@ -43,6 +43,7 @@ func main() {
 	gate := flag.Int("gate", 3000, "(G) number of random schedules of the AsyncRead gate (0 = skip)")
 	gateSeed := flag.Int64("gateseed", -1, "(G) run only this schedule seed (replay)")
 	noreal := flag.Bool("noreal", false, "skip tier R")
+	buffers := flag.String("buffers", "", "(R) replay: force this kind of read buffers in cells with the custom flag (see exec.go)")
 	noHC := flag.Bool("nohcnow", false, "(R) debugging aid: peers never half-close right behind their last burst")
 	idleMs := flag.Int("idle", 120, "(R) idle window in ms (re-measured with 300 ms before reporting)")
 	flag.Parse()
@@ -56,7 +57,11 @@ func main() {
 		"MaxConnReadTimesPerEventLoop{1,3,default} x {tcp,unix,udp}; quick: for each of the 18 (mode, read kind, transport) combinations -n " +
 		"completions drawn from the seed, thorough: all 972; stream cells: 2-4 peers (accepted, one added with AddConn) send position-tagged " +
 		"streams in bursts around the buffer-size and read-limit thresholds with pauses, then half-close at once / half-close later / stay open; " +
-		"udp cells: 2-4 remotes send numbered datagrams of 3..min(buffer,1400) bytes in bursts of 6-20 (short-then-long pairs); ONESHOT cells run " +
+		"udp cells: 2-4 remotes send numbered datagrams of 3..min(buffer,1400) bytes in bursts of 6-20 (short-then-long pairs, some longer " +
+		"than the read buffer: cut to the buffer's length and nothing shorter); cells with the custom flag get a custom IOExecute (arena windows with " +
+		"len < cap, buffers of varying length with a canary behind them, synchronous, late and reordered, fresh) or, where reading is synchronous, " +
+		"OnReadBufferAlloc/Free hooks (arena windows behind fresh or kept slice headers, varying lengths): kinds rotate with the seed; every other " +
+		"connection's data callback holds its slice for about a millisecond and compares it afterwards; LockPoller in a quarter of the cells; ONESHOT cells run " +
 		"-reps fresh engines; non-trivial = more bytes than one read buffer / more than one datagram per remote; " +
 		"(G) random schedules of 2-6 readiness events (each after 0-3 arrivals of 1-40 bytes, read buffer 1-16) against the real AsyncRead " +
 		"gate; non-trivial = at least one event arrives while a read task is alive"
@@ -84,7 +89,7 @@ func main() {
 		default:
 			pick = subset(cells, *seed, *per)
 		}
-		rt := &realTier{rep: rep, dir: dir, reps: *reps, idle: *idleMs, seed: *seed, noHCNow: *noHC}
+		rt := &realTier{rep: rep, dir: dir, reps: *reps, idle: *idleMs, seed: *seed, noHCNow: *noHC, full: *full, buffers: *buffers}
 		for i, c := range pick {
 			if rt.tooMany() {
 				break
